@@ -98,6 +98,9 @@ def gen_c16(r):
         if r.random() < 0.4:
             a, b = b, a
         return ["rl_ufunc", f, a, b], {"how": r.choice(["ufunc", "operator"]), "via": r.choice(RLV), "share": r.random() < 0.5}, True
+    if k == "reduce" and r.random() < 0.15:
+        to = r.choice(C16_DTS + ["u4", "i4"])
+        return ["rl_astype", dt, rnd_runs(r, dt, n, nan_ok=True), to], {"via": r.choice(RLV)}, True
     if k == "reduce" and r.random() < 0.25:
         from .enc import limbs
         wdt = r.choice(["u8", "u8", "i8"])
